@@ -232,12 +232,13 @@ func (x *e1) checkFlushed(sd *sideRec, rec *sendRec, when string) {
 	}
 }
 
-func (x *e1) afterFlush(sd *sideRec, err error) {
+func (x *e1) afterFlush(sd *sideRec, err error, flushStart int) {
 	if err != nil {
 		return
 	}
 	for _, s := range sd.Sends {
-		if s.Done && s.Err == nil {
+		// only sends that had returned before the flush call began are covered
+		if s.Done && s.Err == nil && s.End < flushStart {
 			x.checkFlushed(sd, s, "flush")
 		}
 	}
